@@ -1511,6 +1511,28 @@ int ov_pcm_seek_page(OggVorbis_File *vf,ogg_int64_t pos){
 
     ogg_page og;
 
+    /* a link without any audio page (headers only, zero samples): the
+       only position in it is its start, which is also its end.  There
+       is no page to land on; leave the handle at that position with the
+       stream set up, and the next read reports the end of the data */
+    if(begin==end && pos==total && vf->pcmlengths[link*2+1]==0){
+      result=_seek_helper(vf,begin);
+      if(result) goto seek_error;
+      if(link!=vf->current_link || vf->ready_state<STREAMSET){
+        _decode_clear(vf);
+        vf->current_link=link;
+        vf->current_serialno=vf->serialnos[link];
+        vf->ready_state=STREAMSET;
+      }else{
+        vorbis_synthesis_restart(&vf->vd);
+      }
+      ogg_stream_reset_serialno(&vf->os,vf->current_serialno);
+      vf->pcm_offset=total;
+      vf->bittrack=0.f;
+      vf->samptrack=0.f;
+      return(0);
+    }
+
     /* if we have only one page, there will be no bisection.  Grab the page here */
     if(begin==end){
       result=_seek_helper(vf,begin);
